@@ -40,6 +40,23 @@ type c15Case struct {
 	Spelling int    `json:"spelling"`
 	Umask    int    `json:"umask"`
 	NKeys    int    `json:"nkeys"` // keygen-y: identities in the input
+	Long     bool   `json:"long"`  // long spellings of the flags (--decrypt, --output, ...)
+	Dash     bool   `json:"dash"`  // "-" for standard input / output where it applies
+}
+
+var c15LongFlags = map[string]string{"-d": "--decrypt", "-e": "--encrypt", "-o": "--output", "-a": "--armor", "-p": "--passphrase", "-r": "--recipient", "-R": "--recipients-file", "-i": "--identity"}
+
+func c15Spell(args []string, long bool) []string {
+	if !long {
+		return args
+	}
+	out := append([]string{}, args...)
+	for i, a := range out {
+		if l, ok := c15LongFlags[a]; ok {
+			out[i] = l
+		}
+	}
+	return out
 }
 
 type procResult struct {
@@ -316,6 +333,18 @@ func c15Check(c c15Case, st *stats.Run) error {
 	case "i-without-e":
 		args = []string{"-i", "key.txt"}
 		valid = false
+	case "R-stdin", "R-stdin-conflict":
+		// recipients file read from standard input
+		args = []string{"-R", "-"}
+		if c.Armor {
+			args = append(args, "-a")
+		}
+	case "i-stdin", "i-stdin-conflict":
+		args = []string{"-d", "-i", "-"}
+	}
+	keysOnStdin := strings.HasSuffix(c.Flags, "-stdin") || strings.HasSuffix(c.Flags, "-stdin-conflict")
+	if strings.HasSuffix(c.Flags, "-conflict") {
+		valid = false // standard input cannot be both the key file and the input
 	}
 	if !valid {
 		headerLevel = true
@@ -366,7 +395,13 @@ func c15Check(c c15Case, st *stats.Run) error {
 		args = append(args, "-o", outPath)
 	}
 	var stdin []byte
-	if c.Stdin {
+	if keysOnStdin {
+		c.Stdin = strings.HasSuffix(c.Flags, "-conflict")
+		stdin, _ = os.ReadFile(filepath.Join(dir, map[bool]string{true: "recips.txt", false: "key.txt"}[c.Op == "enc"]))
+		if !c.Stdin {
+			args = append(args, "in.dat")
+		}
+	} else if c.Stdin {
 		stdin = input
 	} else {
 		args = append(args, "in.dat")
@@ -429,9 +464,19 @@ func c15Check(c c15Case, st *stats.Run) error {
 	if expectSuccess {
 		outcome = "expect-success"
 	}
-	st.Case(nontrivial, stats.HashJSON(c), "op="+c.Op, outcome, "out="+c.Out, "damage="+c.Damage, "ident="+c.Ident, "flags="+c.Flags, "samefile="+c.SameFile, "key="+c.Key)
+	st.Case(nontrivial, stats.HashJSON(c), "op="+c.Op, outcome, "out="+c.Out, "damage="+c.Damage, "ident="+c.Ident, "flags="+c.Flags, "samefile="+c.SameFile, "key="+c.Key, fmt.Sprintf("long-flags=%v", c.Long), fmt.Sprintf("dash=%v", c.Dash))
 	st.Sample(c.Op+"/"+c.Out+"/"+outcome, c)
 
+	if c.Dash {
+		// "-" names standard input / standard output
+		if c.Stdin && c.Flags != "two-inputs" {
+			args = append(args, "-")
+		}
+		if outPath == "" {
+			args = append([]string{"-o", "-"}, args...)
+		}
+	}
+	args = c15Spell(args, c.Long)
 	before := snap(dir)
 	res := c15Run(dir, launch, stdin, stdoutMode, c.OutLimit, filepath.Join(bin, "age"), args...)
 	if res.killed || res.code == -3 {
@@ -636,6 +681,7 @@ func c15CheckKeygen(c c15Case, st *stats.Run, bin string) error {
 	}
 	st.Case(c.Out != "stdout", stats.HashJSON(c), "op="+c.Op, outcome, "out="+c.Out, fmt.Sprintf("umask=%o", c.Umask))
 	st.Sample(c.Op+"/"+c.Out+"/"+outcome, c)
+	args = c15Spell(args, c.Long)
 	before := snap(dir)
 	res := c15Run(dir, launch, stdin, stdoutMode, c.OutLimit, filepath.Join(bin, "age-keygen"), args...)
 	if res.killed || res.code == -3 {
@@ -723,6 +769,9 @@ type c15Pty struct {
 	PlainLen int    `json:"plainLen"`
 	Decrypt  string `json:"decrypt"` // "" | right | wrong : decrypt a library-made file instead of encrypting
 	Armor    bool   `json:"armor"`
+	// EncIdentity: the identity file is itself passphrase-encrypted (age -d -i enc.age);
+	// "right" / "wrong" passphrase typed at the prompt
+	EncIdentity string `json:"encIdentity"`
 }
 
 func c15RunPty(dir string, answers []string, bin string, args ...string) (procResult, string) {
@@ -806,8 +855,44 @@ func c15CheckPty(c c15Pty, st *stats.Run) error {
 	dir, _ = filepath.Abs(dir)
 	defer os.RemoveAll(dir)
 	plain := hx.PRG(19, c.PlainLen)
-	st.Case(true, stats.HashJSON(c), "op=passphrase", fmt.Sprintf("pty:autogen=%v", c.Autogen), "pty:decrypt="+c.Decrypt)
+	st.Case(true, stats.HashJSON(c), "op=passphrase", fmt.Sprintf("pty:autogen=%v", c.Autogen), "pty:decrypt="+c.Decrypt, "pty:enc-identity="+c.EncIdentity)
 	st.Sample("passphrase-pty", c)
+	if c.EncIdentity != "" {
+		p := hx.ThePool()
+		r, _ := age.NewScryptRecipient(c.Pass)
+		r.SetWorkFactor(10)
+		idFile, err := encryptLib([]age.Recipient{r}, []byte("# encrypted identity\n"+refage.Bech32Encode("AGE-SECRET-KEY-", p.X25519[0])+"\n"), nil, c.Armor)
+		if err != nil {
+			return pbt.Failf("C15/harness", "%v", err)
+		}
+		os.WriteFile(filepath.Join(dir, "id.age"), idFile, 0o600)
+		os.WriteFile(filepath.Join(dir, "in.age"), refFile(p, []hx.RecSpec{{Kind: "x25519", Idx: 0}}, hx.PRG(2, 16), 3, plain).Bytes(), 0o644)
+		ans := c.Pass
+		if c.EncIdentity == "wrong" {
+			ans += "?"
+		}
+		before := snap(dir)
+		res, tty := c15RunPty(dir, []string{ans}, filepath.Join(bin, "age"), "-d", "-i", "id.age", "-o", "out.dat", "in.age")
+		if res.killed || res.code == -3 {
+			st.Label("inconclusive-pty")
+			return nil
+		}
+		after := snap(dir)
+		if c.EncIdentity == "wrong" {
+			if res.code == 0 {
+				return pbt.Failf("C15/exit0-on-failure", "age -d -i <passphrase-protected identity file> with a wrong passphrase exits 0 (tty %q)", tty)
+			}
+			if d := snapDiff(before, after); d != "" {
+				return pbt.Failf("C15/output-touched-on-refusal", "wrong passphrase for the identity file: %s", d)
+			}
+			return nil
+		}
+		got, _ := os.ReadFile(filepath.Join(dir, "out.dat"))
+		if res.code != 0 || !bytes.Equal(got, plain) {
+			return pbt.Failf("C15/nonzero-on-success", "age -d -i <passphrase-protected identity file> with the right passphrase: exit %d, %d bytes (stderr %q, tty %q)", res.code, len(got), res.stderr, tty)
+		}
+		return nil
+	}
 	if c.Decrypt != "" {
 		r, _ := age.NewScryptRecipient(c.Pass)
 		r.SetWorkFactor(10)
@@ -891,6 +976,8 @@ func c15Gen(t *rapid.T) c15Case {
 	c.Armor = rapid.IntRange(0, 2).Draw(t, "armor") == 0
 	c.PlainLen = rapid.SampledFrom([]int{0, 0, 1, 100, chunk, chunk + 1, 140000}).Draw(t, "plainLen")
 	c.Stdin = rapid.IntRange(0, 3).Draw(t, "stdin") == 0
+	c.Long = rapid.IntRange(0, 2).Draw(t, "long") == 0
+	c.Dash = rapid.IntRange(0, 3).Draw(t, "dash") == 0
 	c.Out = rapid.SampledFrom([]string{"stdout", "new", "new", "existing", "missing-parent", "parent-is-file", "long-name", "fsize", "fsize", "o-devfull", "pipe-close", "stdout-devfull", "stdout-closed"}).Draw(t, "out")
 	total := c.PlainLen + 200
 	switch rapid.IntRange(0, 3).Draw(t, "limitClass") {
@@ -996,7 +1083,7 @@ func TestC15(t *testing.T) {
 						continue
 					}
 					if s.Mine(n) {
-						yield(c15Case{Op: op, Out: out, Umask: um, NKeys: 2, Stdin: n%2 == 0})
+						yield(c15Case{Op: op, Out: out, Umask: um, NKeys: 2, Stdin: n%2 == 0, Long: n%3 == 0})
 					}
 					n++
 				}
@@ -1014,12 +1101,31 @@ func TestC15(t *testing.T) {
 		s.St.Exhaust("age-keygen and age-keygen -y x every kind of output (new file under 3 umasks, existing file, unusable outputs, size limits)", int64(n+1))
 	}, check)
 
+	// key files on standard input
+	pbt.Each(s, "cli-stdin-keys", func(yield func(c15Case)) {
+		n := 0
+		for _, fl := range []string{"R-stdin", "R-stdin-conflict", "i-stdin", "i-stdin-conflict"} {
+			for _, out := range []string{"new", "stdout", "existing"} {
+				op := "dec"
+				if fl[0] == 'R' {
+					op = "enc"
+				}
+				if s.Mine(n) {
+					yield(c15Case{Op: op, Key: "x25519-r", PlainLen: 100, Out: out, Damage: "none", Ident: "right", Flags: fl, Umask: -1, Long: n%2 == 1})
+				}
+				n++
+			}
+		}
+		s.St.Exhaust("recipients / identities read from standard input ('-'), alone and in conflict with the input", int64(n))
+	}, check)
 	pbt.Rapid(s, "cli", s.N(600, 1500), c15Gen, check)
 
 	pbt.Each(s, "cli-passphrase-pty", func(yield func(c15Pty)) {
 		yield(c15Pty{Decrypt: "right", Pass: "terminal passphrase", PlainLen: 100})
 		yield(c15Pty{Decrypt: "wrong", Pass: "terminal passphrase", PlainLen: 100})
 		yield(c15Pty{Decrypt: "right", Pass: "pässwörd", PlainLen: 0, Armor: true})
+		yield(c15Pty{EncIdentity: "right", Pass: "identity passphrase", PlainLen: 50})
+		yield(c15Pty{EncIdentity: "wrong", Pass: "identity passphrase", PlainLen: 50, Armor: true})
 		if s.Shard == 0 {
 			yield(c15Pty{Autogen: true, PlainLen: 10})
 			yield(c15Pty{Autogen: true, PlainLen: 0, Armor: true})
